@@ -373,8 +373,8 @@ PROPS["C10"] = dict(
         dict(name="decoders-checked", flavour="checked", args={"mode": "decoders"}, abort_is_violation=True, **NET),
         dict(name="frames", flavour="release", args={"mode": "frames"}, shards=4, abort_is_violation=True, **NET),
         dict(name="mux-headers", flavour="release", args={"mode": "mux-headers"}, abort_is_violation=True, **NET),
-        dict(name="absurd-messages", flavour="release", abort_is_violation=True, **SIM),
-        dict(name="absurd-messages-checked", flavour="checked", abort_is_violation=True, **SIM),
+        dict(name="absurd-messages", flavour="release", abort_is_violation=True, args={"steps": 900}, **SIM),
+        dict(name="absurd-messages-checked", flavour="checked", abort_is_violation=True, args={"steps": 900}, **SIM),
     ],
     floors={"quick": {"decode_inputs_structured-extremes": 100000, "decode_inputs_mutated-valid": 100000, "decoder_kinds": 36, "mux_headers_probed": 131072, "frame_inputs": 1000, "rpc_request_inputs": 500, "byz_byz-absurd": 300},
             "thorough": {"mux_headers_probed": 262144}},
